@@ -22,6 +22,7 @@ def generate(rng, tier):
         out.append(p)
     out += c01.fault_sweep(rng, 14 * n)
     out += [sc.gen_dynamic(rng, faults=(rng.random() < 0.5)) for _ in range(250 * n)]
+    out += sc.gen_broad(rng, 150 * n)
     return out
 
 
